@@ -794,6 +794,9 @@ class BaseConnector:
                             await trace.send_connection_reuseconn()
                         except BaseException:
                             self._release_acquired(key, proto)
+                            # The connection is not in the pool anymore,
+                            # nobody else would ever close it.
+                            proto.close()
                             raise
                 return Connection(self, key, proto, self._loop)
 
